@@ -4,7 +4,8 @@ case lines:  full <fmt> <ch> <pr> <w> <h> <lim>   |   rect <fmt> <ch> <pr> <W> <
 run on a fault-free stream that is long enough.
 result: `<res> lim=<limit used> need=<total of the allocation requests of the call> granted=<bytes handed to the allocator>` -/
 import DdsModel.Drv.C06
-namespace Dds.Drv
+namespace Dds.Drv.C07
+open Dds.Drv.C06
 open Dds Dds.Stream
 
 def runC07 (line : String) : String :=
@@ -22,4 +23,8 @@ def runC07 (line : String) : String :=
         s!"{resName r} lim={limit} need={planNeed p} granted={st.calls.foldl (· + ·) 0}"
     | _ => "bad-case"
 
+end Dds.Drv.C07
+
+namespace Dds.Drv
+def runC07 : String → String := C07.runC07
 end Dds.Drv
